@@ -806,6 +806,12 @@ func queuePart(rep *hx.Report, modelPath string, seed int64, n int, fullGrid boo
 			seriousFindings++
 			rep.Add(hx.Finding{Kind: p.kind, Property: "C14", Signature: p.sig, What: p.what,
 				Replay: map[string]interface{}{"harness": "wsconc", "part": "queue", "case": qc, "grid_point": fmt.Sprintf("%+v", gp)}})
+			if p.kind == "oracle" {
+				// the same failure seen from the receiver's side is a C12 violation: a message whose WriteMessage succeeded is
+				// not delivered exactly once and in order when the wire carries an unfinished or interleaved frame sequence
+				rep.Add(hx.Finding{Kind: p.kind, Property: "C12", Signature: "send-queue-" + p.sig, What: p.what + " (a peer parsing this wire fails the connection or delivers a wrong message: written messages are not delivered exactly once and in order)",
+					Replay: map[string]interface{}{"harness": "wsconc", "part": "queue", "case": qc, "grid_point": fmt.Sprintf("%+v", gp)}})
+			}
 		}
 		if rep.Cases <= 2 {
 			rep.Sample(map[string]interface{}{"part": "queue", "case": qc})
